@@ -146,6 +146,42 @@ def run(ctx):
     ctx.add_exploration('asceprovider.AssociationAcceptor.__init__', constructor_case, res,
                         target='asceprovider.AssociationAcceptor.__init__')
 
+    # ------------------------------------------------------------------ the reply object keeps the order it is given
+    # accept() builds the reply's item list in the proposed order (clauses above); the A-ASSOCIATE PDU object must
+    # hold -- and so encode (C01/C02) -- its variable items exactly as given.  Checked on the real constructor for
+    # both PDU classes with items whose context ids are NOT ascending (supplementary: the accept exploration
+    # itself needs the constructor to be the identity on a symbolic list, anything else leaves its subset).
+    def pdu_keeps_order(p):
+        lab1 = 'pdu.AAssociatePDUBase.__init__'
+        pm = it.modules['pynetdicom2.pdu']
+        ud = it.modules['pynetdicom2.userdataitems']
+
+        def ob(name, f):
+            if isinstance(f, bool):
+                f = z3.BoolVal(f)
+            p.oblige('%s#%s' % (lab1, name), f, kind='ensures', assume_after=False)
+        for cname in ('AAssociateRqPDU', 'AAssociateAcPDU'):
+            app = it.instantiate(pm.attrs['ApplicationContextItem'], ['1.2.840.10008.3.1.1.1'], {})
+            ts = it.instantiate(pm.attrs['TransferSyntaxSubItem'], ['1.2.840.10008.1.2'], {})
+            pcs = [it.instantiate(pm.attrs['PresentationContextItemAC'], [cid, 0, ts], {}) for cid in (5, 1, 3)]
+            user = it.instantiate(pm.attrs['UserInformationItem'],
+                                  [ListVal([it.instantiate(ud.attrs['MaximumLengthSubItem'], [16384], {})])], {})
+            given = [app] + pcs + [user]
+            try:
+                x = it.instantiate(pm.attrs[cname], [], {'called_ae_title': 'CALLED', 'calling_ae_title': 'CALLING',
+                                                         'variable_items': ListVal(list(given))})
+            except Raised as r:
+                ob('noexc', False)
+                continue
+            got = it.getattr(x, 'variable_items')
+            items = list(got.items) if isinstance(got, ListVal) else None
+            ob('variable-items-kept-in-the-order-given[%s]' % cname, items is not None and len(items) == len(given) and
+               all(a is b for a, b in zip(items, given)))
+        p.outcome = 'normal'
+    fv, _ = verify.lookup_function(it, 'pdu.AAssociatePDUBase.__init__')
+    infos.append(verify.function_info(it, fv))
+    ctx.add_exploration('pdu.AAssociatePDUBase.__init__', pdu_keeps_order, res, target='pdu.AAssociatePDUBase.__init__')
+
     # ------------------------------------------------------------------ dispatch
     lab2 = 'asceprovider.AssociationAcceptor._loop'
 
